@@ -552,6 +552,23 @@ func c12Callers(c *core.Ctx, i int64, r *rand.Rand) {
 func c12SharedProg(c *core.Ctx, i int64, r *rand.Rand) {
 	src := c11Valid(100 + r.Intn(800))
 	src = append(src, []byte("print base + 41\nbind blk:first -> slice\nbind blk:all -> slice\nprint \"done\"\n")...)
+	switch r.Intn(4) {
+	case 0:
+		// blocks with many fields (maps beyond their first bucket), nested ones too
+		var b strings.Builder
+		for k, n := 0, 1+r.Intn(3); k < n; k++ {
+			fmt.Fprintf(&b, "def wide \"w%d\" {\n", k)
+			for f, m := 0, []int{8, 9, 10, 17, 40, 130}[r.Intn(6)]; f < m; f++ {
+				fmt.Fprintf(&b, "  field_%d = base + %d\n", f, f)
+			}
+			b.WriteString("  def inner { a = 1; b = 2; c = 3; d = 4; e = 5; f = 6; g = 7; h = 8; i = 9; j = 10 }\n}\n")
+		}
+		src = append(src, b.String()...)
+	case 1:
+		// values printed in one piece, however long
+		ln := []int{32767, 32768, 35000, 65536}[r.Intn(4)]
+		src = append(src, fmt.Sprintf("var long = \"ab\" * %d\n%s", ln, strings.Repeat("print long\nprint base\n", 6))...)
+	}
 	if r.Intn(3) == 0 {
 		src = append(src, []byte("print 1 / 0\n")...)
 	}
@@ -624,7 +641,7 @@ func init() {
 		Rule: "Go race detector on a '-race -tags verif' build of the workers (GORACE=halt_on_error=0 log_path=...; reports are counted from the log files, deduplicated by the pair of library functions, exit codes are not trusted) + result-equality monitor. " +
 			"Workload: (a) the file pipeline on inputs with syntax errors on many lines, valid inputs and early lexical failures, read in chunks of 1..64 bytes with delays and seeded perturbation at the suspension points, so that the parser formats diagnostics while the lexer appends to the line table; (b) batches of 2/8/32 concurrent callers interpreting and ParseFile-ing different inputs, results compared with the sequential ones; " +
 			"(c) one shared Prog executed from 2/8/32 goroutines with a concurrency-safe writer: results equal the sequential ones, output is n times the sequential lines, the Prog dumps the same afterwards. " +
-			"distinct = hash of the run; non-trivial = (a) the event log shows a line-table update between two diagnostics, (b)/(c) the calls overlapped in one batch Also: the first use of the library in every worker process is 16 concurrent Interpret calls; concurrent callers share one option slice with spare capacity and partly use the default log destination; pipeline runs with a late read error and a plain unsynchronised log buffer; the shared program executes three binds and the warnings are counted.",
+			"distinct = hash of the run; non-trivial = (a) the event log shows a line-table update between two diagnostics, (b)/(c) the calls overlapped in one batch Also: the first use of the library in every worker process is 16 concurrent Interpret calls; concurrent callers share one option slice with spare capacity and partly use the default log destination; pipeline runs with a late read error and a plain unsynchronised log buffer; the shared program executes three binds and the warnings are counted. A quarter of the shared programs define blocks of 8..130 fields (maps beyond their first bucket) with nested ones, another quarter print 64..128 KiB strings six times (each must arrive in one piece).",
 		Assumptions:   []string{"absence of reports is absence on the executions run under the detector, not for all schedules", "the race detector sees only synchronisation it intercepts (pure Go here)"},
 		MinNontrivial: 200,
 		Race:          func(tier string) bool { return true },
